@@ -36,6 +36,28 @@ MUT = [
 ]
 
 
+MUT += [
+    ("M30", "penguin-mux/src/stream.rs", "            // Reset the counter\n            self.psh_recvd_since = 0;\n", "", ["C03", "C04"], ["C03"]),
+    ("M31", "penguin-mux/src/stream.rs", ".send(Frame::new_acknowledge(self.flow_id, new).into())", ".send(Frame::new_acknowledge(self.flow_id, 1).into())", ["C03", "C04"], ["C0"]),
+    ("M32", "penguin-mux/src/stream.rs", "            buf.put_slice(&got[..amt]);\n            self.consume(amt);", "            buf.put_slice(&got[..amt]);\n            let all = got.len();\n            self.consume(all);", ["C02"], ["C02"]),
+    ("M33", "penguin-mux/src/stream.rs", "        let Some(()) = ready!(self.poll_obtain_write_permission(cx)) else {\n            return Poll::Ready(None);\n        };\n        let frame = Frame::new_push(self.flow_id, buf).into();\n        Poll::Ready(self.tx_msg_tx.send(frame).ok())", "        let frame = Frame::new_push(self.flow_id, buf).into();\n        let r = self.tx_msg_tx.send(frame).ok();\n        let Some(()) = ready!(self.poll_obtain_write_permission(cx)) else {\n            return Poll::Ready(None);\n        };\n        Poll::Ready(r)", ["C03"], ["C03"]),
+    ("M34", "penguin-mux/src/stream.rs", "        self.buf = next;\n        self.increment_psh_recvd_since();", "        self.buf = next;", ["C03", "C04"], ["C0"]),
+    ("M35", "penguin-mux/src/task.rs", "                    FlowSlot::Established(stream_data) => {\n                        if stream_data.disallow_read().is_none() {\n                            warn!(\"Duplicate `Finish` frame\");\n                        }\n                    }", "                    FlowSlot::Established(stream_data) => {\n                        if stream_data.disallow_read().is_none() {\n                            warn!(\"Duplicate `Finish` frame\");\n                        }\n                        stream_data.disallow_write();\n                    }", ["C05", "C10"], ["C05"]),
+    ("M36", "penguin-mux/src/task.rs", "        self.tx_msg_tx\n            .send(Frame::new_acknowledge(flow_id, self.rwnd).into())\n            .or(Err(Error::Closed))?;\n        // At the con_recv side, we use `con_recv_stream_tx` to send the new stream to the\n        // user.\n        trace!(\"sending stream to user\");\n        // This goes to the user\n        self.con_recv_stream_tx\n            .send(stream)\n            .await\n            .or(Err(Error::SendStreamToClient))?;", "        self.con_recv_stream_tx\n            .send(stream)\n            .await\n            .or(Err(Error::SendStreamToClient))?;\n        self.tx_msg_tx\n            .send(Frame::new_acknowledge(flow_id, self.rwnd).into())\n            .or(Err(Error::Closed))?;", ["C07", "C08", "C10"], ["C"]),
+    ("M37", "penguin-mux/src/task.rs", "            Payload::Reset => self.close_flow(flow_id, true),", "            Payload::Reset => self.close_flow(flow_id, false),", ["C06", "C10"], ["C06"]),
+    ("M38", "penguin-mux/src/task.rs", "                        warn!(\"Peer does not respect `rwnd` limit, dropping stream\");\n                        self.close_flow(flow_id, false);", "                        warn!(\"Peer does not respect `rwnd` limit, dropping stream\");\n                        self.close_flow(flow_id, true);", ["C10", "C03"], ["C10"]),
+    ("M39", "penguin-mux/src/task.rs", "                        TrySendError::Closed(_) => return Err(Error::Closed),", "                        TrySendError::Closed(_) => warn!(\"Dropped datagram: {e}\"),", ["C11", "C10", "C08"], ["C1"]),
+    ("M40", "penguin-mux/src/frame.rs", "match value & 0x0F", "match value & 0x1F", ["C09"], ["C09"]),
+    ("M41", "cow-bytes/src/pbuf.rs", "        let elem = self.data.remove(index);\n        self.total_remaining_len -= elem.len();", "        let elem = self.data.remove(index);", ["C20"], ["C20"]),
+    ("M42", "cow-bytes/src/pbuf.rs", "            if next.remaining() == 0 {\n                self.data.remove(0);\n            }", "            if next.remaining() == 0 && cnt > 0 {\n                self.data.remove(0);\n            }", ["C20"], ["C20"]),
+    ("M43", "cow-bytes/src/pbuf.rs", "            self.total_remaining_len -= advance_by;", "            self.total_remaining_len -= cnt;", ["C20"], ["C20"]),
+    ("M44", "penguin-mux/src/task.rs", "                .cmp_duration(&elapsed_since_last_pong)\n                == core::cmp::Ordering::Less", "                .cmp_duration(&elapsed_since_last_pong)\n                != core::cmp::Ordering::Greater", ["C16"], ["C16"]),
+    ("M45", "penguin-mux/src/stream_tools/copy_bidirectional.rs", "                    *this.write_state = WriteState::Transferring(written_amt);\n                    return Poll::Ready(Err(e));", "                    *this.write_state = WriteState::Done(written_amt);\n                    return Poll::Ready(Err(e));", ["C13"], ["C13"]),
+    ("M46", "penguin-mux/src/stream_tools/copy_bidirectional.rs", "                            frame::append_push_data(&mut msg_payload, new_buf);\n                            cumulated_len += processed;\n                            other.as_mut().consume(processed);", "                            frame::append_push_data(&mut msg_payload, new_buf);\n                            other.as_mut().consume(processed);", ["C13"], ["C13"]),
+    ("M47", "penguin-mux/src/lib.rs", "        let old = self.finish_sent.swap(true, Ordering::AcqRel);", "        let old = self.finish_sent.load(Ordering::Acquire);", ["C05", "C06", "C12", "C08"], ["C"]),
+]
+
+
 # behaviour-preserving refactors: every listed check must stay silent
 EQUIV = [
     ("E01", "penguin-mux/src/stream.rs", "if new >= self.rwnd_threshold {", "if !(new < self.rwnd_threshold) {", ["C03"]),
